@@ -22,7 +22,8 @@ META = {
                    "(reversed, offset, all-equal duplicates, shuffled, strings), a joint row permutation, a group-label bijection. z3 decides equality of the "
                    "variant's result terms with the baseline's for all row values; the configuration matrix itself is finite and walked by the engine.",
     "tier_bounds": {"quick": "n=4 rows; per entry point: every (argument x container x index pattern) one-at-a-time plus 12 seeded joint configurations, 3 row "
-                             "permutations, 1 label bijection", "thorough": "n=5; 60 seeded joint configurations, all 24 permutations for n=4"},
+                             "permutations, 1 label bijection; entry point mf2: two features in ONE container (2-D array baseline; DataFrame x 6 index patterns; dict of arrays / lists; "
+                             "dict of Series with one index pattern per column, 12 combinations)", "thorough": "n=5; 60 seeded joint configurations, all 24 permutations for n=4"},
     "trusted_base": ["z3", "symx", "pandas alignment semantics as executed"],
     "stubs": ["nanops._ensure_numeric", "confusion_matrix / unique stubs", "check_array pass-through", "recorder learner"],
     "assumptions": ["labels concrete (must pass validation)", "metric for MetricFrame: order-insensitive per-row sum"],
